@@ -43,14 +43,16 @@ template <class P> struct Gen {
 template <class T, size_t N, size_t M> static void run_config(Rng& g) {
   using P = nfl::poly<T, N, M>;
   constexpr size_t k = nfl::static_log2<N>::value;
-  const bool big = N >= 2048;
+  const bool allrows = env_u64("VERIF_ALLROWS", 0) != 0;   // full table width at a small degree (C06)
+  const bool big = N >= 2048 || allrows;
   // ---- tables (private members reached with -fno-access-control) ----
   for (size_t cm = 0; cm < M; cm++) {
     const T* tabs[8] = {P::base.phis[cm], P::base.shoupphis[cm], P::base.invpoly_times_invphis[cm],
                         P::base.shoupinvpoly_times_invphis[cm], P::base.omegas[cm], P::base.shoupomegas[cm],
                         P::base.invomegas[cm], P::base.shoupinvomegas[cm]};
     for (int t = 0; t < 8; t++) {
-      if (big && !thorough() && (cm > 0 || (t != 0 && t != 4 && t != 6))) continue;
+      if (allrows && t != 0 && t != 2 && t != 4 && t != 6) continue;
+      if (!allrows && big && !thorough() && (cm > 0 || (t != 0 && t != 4 && t != 6))) continue;
       size_t len = t < 4 ? N : N - 1;
       printf("tab %d %d %zu %zu =>", t, bits<T>(), cm, k);
       for (size_t i = 0; i < len; i++) printf(" %llu", (unsigned long long)tabs[t][i]);
@@ -121,6 +123,17 @@ int main() {
   uint64_t seed = env_u64("VERIF_SEED", 1);
   Rng g(seed);
   printf("# ntt backend=%s seed=%llu tier=%s\n", BACKEND_NAME, (unsigned long long)seed, thorough() ? "thorough" : "quick");
+  if (env_u64("VERIF_ALLROWS", 0)) {
+    // every row of every table as a modulus of one polynomial: transforms, round trips, products on all rows
+    run_config<uint16_t, 8, nfl::params<uint16_t>::kMaxNbModuli>(g);
+    run_config<uint32_t, 8, nfl::params<uint32_t>::kMaxNbModuli>(g);
+    run_config<uint64_t, 8, nfl::params<uint64_t>::kMaxNbModuli>(g);
+    if (thorough()) {
+      run_config<uint32_t, 64, nfl::params<uint32_t>::kMaxNbModuli>(g);
+      run_config<uint64_t, 32, nfl::params<uint64_t>::kMaxNbModuli>(g);
+    }
+    return 0;
+  }
   // every power-of-two degree the build accepts; number of moduli varied
   maybe<uint16_t, 1, 1, MIN16>(g);  maybe<uint16_t, 2, 2, MIN16>(g);  maybe<uint16_t, 4, 1, MIN16>(g);
   maybe<uint16_t, 8, 2, MIN16>(g);  maybe<uint16_t, 16, 1, MIN16>(g); maybe<uint16_t, 32, 2, MIN16>(g);
